@@ -208,15 +208,17 @@ let handle (case : string list) (impl : string list) : string * string =
   | _ -> ("driver-badcase", "na")
 
 (* typed cases for annotated types: the JSON the model writes travels inside the case line *)
-let add_tj_cases (file : string) : unit =
+let add_tj_cases (tier : string) (file : string) : unit =
   let ic = open_in file in
   let lines = ref [] in
   (try while true do lines := input_line ic :: !lines done with End_of_file -> ());
   close_in ic;
   let oc = open_out_gen [Open_append] 0o644 file in
+  let k = ref 0 in
   List.iter (fun line ->
+      incr k;
       match split_ws line with
-      | ["rt"; name; hexs] ->
+      | ["rt"; name; hexs] when tier <> "thorough" || !k mod 2 = 0 ->
         (match lookup_serde (coqstr name) (j_table depth3) with
          | Some (sch, a) ->
            (match (try dec sch (bytes_of_hex hexs) with _ -> Err) with
@@ -239,7 +241,7 @@ let gen_mode seed tier out =
   if Sys.file_exists c01 then begin
     let rc = Sys.command (Printf.sprintf "%s gen %s %s %s" (Filename.quote c01) seed tier (Filename.quote out)) in
     if rc <> 0 then exit rc;
-    add_tj_cases out; exit 0
+    add_tj_cases tier out; exit 0
   end else (close_out (open_out out); exit 0)
 
 let () =
